@@ -45,13 +45,13 @@ def pick_class(sr, rng, sym, fermionic, kind=None):
     return cls, {"symmetry": sym}, "generic_str"
 
 
-def rand_index(sr, rng, sym, dual=None, maxc=3, maxd=3, mind=1, p_single=0.12):
+def rand_index(sr, rng, sym, dual=None, maxc=3, maxd=3, mind=1, p_single=0.12, minc=1):
     pool = POOL[sym]
     if rng.random() < p_single:
         cs = [rng.choice(pool)]
         cm = {cs[0]: 1 if rng.random() < 0.7 else rng.randint(mind, maxd)}
     else:
-        cs = rng.sample(pool, rng.randint(1, min(maxc, len(pool))))
+        cs = rng.sample(pool, rng.randint(min(minc, len(pool)), min(maxc, len(pool))))
         cm = {c: rng.randint(mind, maxd) for c in cs}
     return sr.BlockIndex(cm, dual=(rng.random() < 0.5) if dual is None else dual)
 
@@ -100,7 +100,7 @@ class Values:
         v = self._real(shape)
         if self.dtype.kind == "c":
             v = v + 1j * self._real(shape)
-        return np.ascontiguousarray(v.astype(self.dtype))
+        return np.array(v, dtype=self.dtype, order="C").reshape(shape)
 
 
 def thin(rng, sectors, sparsity):
@@ -198,9 +198,14 @@ def rand_array(sr, rng, sym=None, ndim=None, fermionic=False, maxnd=4, **kw):
 def contractible_pair(sr, rng, sym, fermionic, na=None, nb=None, ncon=None, maxnd=3, values=None, **kw):
     """Two arrays with `ncon` matching (conjugate) index pairs at random positions.
     -> a, b, axes_a, axes_b"""
-    na = rng.randint(0, maxnd) if na is None else na
-    nb = rng.randint(0, maxnd) if nb is None else nb
-    ncon = rng.randint(0, min(na, nb)) if ncon is None else ncon
+    def _nd():
+        return rng.randint(0, maxnd) if rng.random() < 0.15 else rng.randint(1, maxnd)
+
+    na = _nd() if na is None else na
+    nb = _nd() if nb is None else nb
+    if ncon is None:
+        m = min(na, nb)
+        ncon = 0 if (m == 0 or rng.random() < 0.12) else rng.randint(1, m)
     maxc = kw.pop("maxc", 3)
     maxd = kw.pop("maxd", 3)
     ia = [rand_index(sr, rng, sym, maxc=maxc, maxd=maxd) for _ in range(na)]
